@@ -153,7 +153,8 @@ def audit_axioms(pid, theorems, module):
     """#print axioms on every registered theorem; returns {theorem: [axioms]} or raises"""
     os.makedirs(BUILD, exist_ok=True)
     path = os.path.join(BUILD, f'Audit_{pid}.lean')
-    src = f'import {module}\n' + ''.join(f'#print axioms {t}\n' for t in theorems)
+    extra = obligations_of(pid).get('imports', [])
+    src = f'import {module}\n' + ''.join(f'import {m}\n' for m in extra) + ''.join(f'#print axioms {t}\n' for t in theorems)
     with open(path, 'w') as f:
         f.write(src)
     with _Lock('lake'):
@@ -174,6 +175,7 @@ class LeanStatus(object):
         self.discharged = 0
         self.broken = []        # list of dicts {theorem, module, message}
         self.open = []
+        self.partial = []
         self.axioms = {}
         self.checker_cmd = ''
         self.driver_ok = True
@@ -187,6 +189,7 @@ def check_lean(pid, thorough=False, need_driver=True):
     module = ob.get('module', f'Depccg.Props.{pid}')
     theorems = ob.get('theorems', [])
     st.open = ob.get('open', [])
+    st.partial = ob.get('partial', [])
     st.obligations = len(theorems) + len(st.open)
     st.checker_cmd = (f'cd lean && lake build {module} && lake env lean ../build/Audit_{pid}.lean'
                       + (f' && lake env leanchecker {module}' if thorough else ''))
@@ -195,7 +198,7 @@ def check_lean(pid, thorough=False, need_driver=True):
         if rc != 0:
             st.driver_ok = False
             st.driver_msg = out[-3000:]
-    rc, out = lake_build([module])
+    rc, out = lake_build([module] + list(ob.get('imports', [])))
     if rc != 0:
         st.ok = False
         err = first_lean_error(out)
@@ -328,6 +331,7 @@ def write_evidence(ctx, violations):
         'checker_cmd': lean.checker_cmd if lean else '',
         'trusted_base': TRUSTED_BASE + ctx.assumptions,
         'open_obligations': lean.open if lean else [],
+        'partial_aspects_not_carried_by_a_theorem': lean.partial if lean else [],
         'axioms': {k: v for k, v in (lean.axioms.items() if lean else [])},
         'model_impl_disagreements': len(ctx.disagreements),
         'known_findings_hit': [k.get('what') for k in ctx.known_hits],
